@@ -7,6 +7,9 @@ Import ListNotations.
 Definition k (x : string) : str := lit x.
 
 Inductive dtype := DEnum (name : ids) (fields : list str) | DSubInt (name : ids) (lo hi : Z).
+(* an item of an interface's `types` list: an enum or subint, or an item of a class the parser does not know *)
+Inductive ditype := ITType (t : dtype) | ITOther (cls : str).
+Definition types_of (ts : list ditype) : list dtype := flat_map (fun i => match i with ITType t => [t] | ITOther _ => [] end) ts.
 Record dformal := { df_name : str; df_type : ids; df_dir : fdir }.
 Record devent := { de_name : str; de_dir : edir; de_ret : ids; de_formals : list dformal }.
 Record dport := { dp_name : str; dp_type : ids; dp_dir : portdir; dp_injected : bool }.
@@ -14,7 +17,7 @@ Definition dendpoint := (str * option str)%type.
 
 Inductive ddecl :=
 | DNs (name : ids) (body : list ddecl)
-| DItf (name : ids) (types : list dtype) (events : list devent)
+| DItf (name : ids) (types : list ditype) (events : list devent)
 | DComp (name : ids) (ports : list dport)
 | DForeign (name : ids) (ports : list dport)
 | DSys (name : ids) (ports : list dport) (instances : list (str * ids)) (bindings : list (dendpoint * dendpoint))
@@ -60,6 +63,11 @@ Definition j_type (t : dtype) : json :=
   | DSubInt n lo hi => JObj [jcls "subint"; (k "name", j_scope n);
                              (k "range", JObj [jcls "range"; (k "from", JInt lo); (k "to", JInt hi)])]
   end.
+Definition j_itype (i : ditype) : json :=
+  match i with
+  | ITType t => j_type t
+  | ITOther c => JObj [(k "<class>", JStr c); (k "name", j_scope [k "Alias"]); (k "whatever", JArr [JInt 1])]
+  end.
 Definition j_endpoint (e : dendpoint) : json :=
   JObj ([jcls "end-point"; (k "port_name", JStr (fst e))] ++
         match snd e with Some i => [(k "instance_name", JStr i)] | None => [] end).
@@ -69,7 +77,7 @@ Fixpoint j_decl (extras : bool) (d : ddecl) : json :=
   | DNs n body => JObj [jcls "namespace"; (k "name", j_scope n); (k "elements", JArr (map (j_decl extras) body))]
   | DItf n ts es =>
     JObj ([jcls "interface"; (k "name", j_scope n);
-           (k "types", JObj [jcls "types"; (k "elements", JArr (map j_type ts))]);
+           (k "types", JObj [jcls "types"; (k "elements", JArr (map j_itype ts))]);
            (k "events", JObj [jcls "events"; (k "elements", JArr (map (j_event extras) es))])] ++
           (if extras then [(k "behavior", JObj [jcls "behavior"; (k "statement", JObj [])])] else []))
   | DComp n ps =>
@@ -115,8 +123,8 @@ Definition enums_of_types (path : ids) (ts : list dtype) : list enum_d :=
 Definition subints_of_types (path : ids) (ts : list dtype) : list subint_d :=
   flat_map (fun t => match t with DSubInt n lo hi => [subint_at path n lo hi] | _ => [] end) ts.
 
-Definition interface_at (path n : ids) (ts : list dtype) (es : list devent) : interface_d :=
-  {| it_fqn := path ++ n; it_parent := path; it_name := n; it_types := map (type_at (path ++ n)) ts;
+Definition interface_at (path n : ids) (ts : list ditype) (es : list devent) : interface_d :=
+  {| it_fqn := path ++ n; it_parent := path; it_name := n; it_types := map (type_at (path ++ n)) (types_of ts);
      it_events := map event_of es |}.
 Definition component_at (path n : ids) (ps : list dport) : component_d :=
   {| co_fqn := path ++ n; co_parent := path; co_name := n; co_ports := map port_of ps |}.
@@ -141,8 +149,8 @@ Fixpoint declared (path : ids) (d : ddecl) : file_contents :=
   match d with
   | DNs n body => fold_right (fun x acc => fc_app (declared (path ++ n) x) acc) empty_fc body
   | DItf n ts es =>
-    {| fc_components := []; fc_enums := enums_of_types (path ++ n) ts; fc_externs := []; fc_filenames := []; fc_foreigns := [];
-       fc_imports := []; fc_interfaces := [interface_at path n ts es]; fc_subints := subints_of_types (path ++ n) ts; fc_systems := [] |}
+    {| fc_components := []; fc_enums := enums_of_types (path ++ n) (types_of ts); fc_externs := []; fc_filenames := []; fc_foreigns := [];
+       fc_imports := []; fc_interfaces := [interface_at path n ts es]; fc_subints := subints_of_types (path ++ n) (types_of ts); fc_systems := [] |}
   | DComp n ps => only_components [component_at path n ps]
   | DForeign n ps =>
     {| fc_components := []; fc_enums := []; fc_externs := []; fc_filenames := []; fc_foreigns := [component_at path n ps];
@@ -180,6 +188,8 @@ Definition known_class (c : str) : bool :=
                        k "namespace"; k "system"; k "subint"].
 
 Definition wf_type (t : dtype) : bool := match t with DEnum n _ => ids_ok n | DSubInt n _ _ => ids_ok n end.
+Definition wf_itype (i : ditype) : bool :=
+  match i with ITType t => wf_type t | ITOther c => negb (str_eqb c (k "enum")) && negb (str_eqb c (k "subint")) end.
 Definition wf_formal (f : dformal) : bool := ids_ok (df_type f).
 (* out events return void and have no out parameter (the parser refuses anything else, see C15) *)
 Definition wf_event (e : devent) : bool :=
@@ -193,7 +203,7 @@ Definition wf_port (p : dport) : bool := ids_ok (dp_type p).
 Fixpoint wf_decl (d : ddecl) : bool :=
   match d with
   | DNs n body => ids_ok n && forallb wf_decl body
-  | DItf n ts es => ids_ok n && forallb wf_type ts && forallb wf_event es
+  | DItf n ts es => ids_ok n && forallb wf_itype ts && forallb wf_event es
   | DComp n ps => ids_ok n && forallb wf_port ps
   | DForeign n ps => ids_ok n && forallb wf_port ps
   | DSys n ps is_ _ => ids_ok n && forallb wf_port ps && forallb (fun i => ids_ok (snd i)) is_
